@@ -90,6 +90,11 @@ structure Shape where
                                     -- `with` statement, `transaction_lock` is assigned once in class `Rmcp` (in `__init__`,
                                     -- `threading.Lock()`), and the class creates no other lock (a lock chosen per target /
                                     -- per thread / per call serialises nothing between the threads the model serialises)
+  lockOpsElsewhere : Nat            -- mentions of `self.transaction_lock` in class `Rmcp` OTHER than its one assignment and
+                                    -- the context expression of that block: the lock is taken and released by the `with`
+                                    -- statement only - no explicit `.release()` / `.acquire()` (inside the block, between a
+                                    -- time-out and the retransmission, it would end the exchange's mutual exclusion half-way:
+                                    -- `Props.C14.stepR`, `release_in_retry_handler_counterexample`), no alias
   incFirst : Bool                   -- the first statement executed is `self._inc_sequence_number()`: first statement of
                                     -- the function, or of the lock block when the function begins with that
   seqInLock : Bool                  -- no mention of `next_sequence_number` / `_inc_sequence_number` outside the lock
@@ -147,7 +152,7 @@ allocated and read inside the lock block (`seqLocked = true` with fixes/C04-2.di
 and whether the session wrapper is built by the transmission of every attempt (`perAttempt = true`, the source) or
 once before the retry loop (`false`: a retransmission repeats the session sequence number). -/
 def Shape.expected (join : Bool) (seqLocked : Bool := true) (perAttempt : Bool := true) : Shape :=
-  { lockBlocks := 1, oneLock := true, incFirst := true, seqInLock := seqLocked, incCalls := 1, ioOutsideLock := 0, sendsInLock := 1, recvsInLock := 1,
+  { lockBlocks := 1, oneLock := true, lockOpsElsewhere := 0, incFirst := true, seqInLock := seqLocked, incCalls := 1, ioOutsideLock := 0, sendsInLock := 1, recvsInLock := 1,
     qGetInLock := 1, qPut := 0, packInSar := 0, packInSend := 1, sendBuildsIpmiMsg := true,
     retryLoop := true, packBeforeLoop := if perAttempt then 0 else 1, packPerAttempt := perAttempt, packIncs := 1,
     packIncGuardedByActivated := true, seqAdd := 1, seqMod := 64, keepAliveLocked := true, rawLocked := true,
